@@ -584,44 +584,6 @@ Section Main.
   Definition own_of (te : details) : list ustring :=
     match det_name te with Some n => [n] | None => [] end.
 
-  Definition Post (s : schema) (nm : name) (s0 : st) (te : details) (s1 : st) : Prop :=
-    wf s1 /\ frame s0 s1 /\
-    (exists L, names_of cls s nm = own_of te ++ L /\ names_sub s0 s1 L) /\
-    forall T, ext s1 T -> DefsPop T -> forall t, realizes (get T) t te ->
-      forall ft nn, Gs T s (S (S ft)) nn t = true.
-
-  Definition P (s : schema) : Prop :=
-    frag cls keys s = true -> forall nm s0 te s1,
-    cvf s nm s0 = Some (te, s1) -> wf s0 ->
-    NoDup (names_of cls s nm) -> (forall n, In n (names_of cls s nm) -> ~ In n (nkeys s0)) ->
-    Post s nm s0 te s1.
-
-  (* id_for_schema = convert_schema + assign_type *)
-  Definition PostA (s : schema) (nm : name) (s0 : st) (t : id) (s2 : st) : Prop :=
-    wf s2 /\ frame s0 s2 /\ names_sub s0 s2 (names_of cls s nm) /\
-    forall T, ext s2 T -> DefsPop T -> forall ft nn, Gs T s (S (S ft)) nn t = true.
-
-  Lemma P_assign s : P s -> frag cls keys s = true -> forall nm s0 te s1 t s2,
-    cvf s nm s0 = Some (te, s1) -> assign te s1 = (t, s2) -> wf s0 ->
-    NoDup (names_of cls s nm) -> (forall n, In n (names_of cls s nm) -> ~ In n (nkeys s0)) ->
-    PostA s nm s0 t s2.
-  Proof.
-    intros HP Hf nm s0 te s1 t s2 Hc Ha Hw Hnd Hfr.
-    destruct (HP Hf nm s0 te s1 Hc Hw Hnd Hfr) as (Hw1 & Hf1 & (L & HL & Hns) & HG).
-    assert (Hfresh : forall n, det_name te = Some n -> ~ In n (nkeys s1)).
-    { intros n Hn Hin. unfold own_of in HL. rewrite Hn in HL.
-      destruct (Hns n Hin) as [H|H].
-      - apply (Hfr n); [rewrite HL; left; reflexivity|exact H].
-      - rewrite HL in Hnd. cbn in Hnd. inversion Hnd; subst. contradiction. }
-    destruct (assign_ok te s1 t s2 Ha Hw1 Hfresh) as (Hw2 & Hf2 & Hr & _ & Hns2).
-    split; [exact Hw2|]. split; [eapply frame_trans; eassumption|]. split.
-    - eapply names_sub_weaken; [eapply names_sub_trans; eassumption|].
-      rewrite HL. unfold own_of. intros x Hx. apply in_app_or in Hx. apply in_or_app.
-      destruct Hx; [right|left]; assumption.
-    - intros T He Hp ft nn. apply (HG T); [eapply ext_frame; eassumption|exact Hp|].
-      eapply realizes_ext; eassumption.
-  Qed.
-
   Lemma covers_frag_Gs T s nn t :
     frag cls keys s = true -> covers re native T A s nn (TId t) = Gs T s FT nn t.
   Proof.
@@ -669,18 +631,6 @@ Section Main.
   Qed.
 
   (* ---------------------------------------------------------------- struct members *)
-  Definition prop_rel (req : list ustring) (s1 : st) (kv : ustring * schema) (p : prop) : Prop :=
-    wire_name p = Some (fst kv) /\
-    forall T, ext s1 T -> DefsPop T ->
-      covers re native T A (snd kv) false (TId (p_ty p)) = true /\
-      (mem_ustr (fst kv) req = true \/ missing_ok re native T p = true).
-
-  Lemma prop_rel_mono req s s' kv p : wf s -> frame s s' -> prop_rel req s kv p -> prop_rel req s' kv p.
-  Proof.
-    intros Hw Hf [H1 H2]. split; [exact H1|]. intros T He Hp. apply H2; [|exact Hp].
-    eapply ext_frame; eassumption.
-  Qed.
-
   Lemma recase_wire k ident rn st' t' :
     Sanitize.recase cls k Sanitize.Snake = (ident, rn) ->
     wire_name (mkProp ident (match rn with Some old => RRename old | None => RNone end) st' t') = Some k.
@@ -719,122 +669,8 @@ Section Main.
     destruct d; try contradiction; reflexivity.
   Qed.
 
-  Lemma conv_prop_ok base req k s' : P s' -> frag cls keys s' = true -> forall s0 p s3,
-    conv_prop cls cvf base req k s' s0 = Some (p, s3) -> wf s0 ->
-    NoDup (names_of cls s' (prop_type_name cls base k)) ->
-    (forall n, In n (names_of cls s' (prop_type_name cls base k)) -> ~ In n (nkeys s0)) ->
-    wf s3 /\ frame s0 s3 /\ names_sub s0 s3 (names_of cls s' (prop_type_name cls base k)) /\
-    prop_rel req s3 (k, s') p.
-  Proof.
-    intros HP Hf s0 p s3 Hcp Hw Hnd Hfr. unfold conv_prop in Hcp.
-    destruct (cvf s' (prop_type_name cls base k) s0) as [[te s1]|] eqn:Hc; [|discriminate].
-    destruct (assign te s1) as [t s2] eqn:Ha.
-    destruct (P_assign s' HP Hf _ _ _ _ _ _ Hc Ha Hw Hnd Hfr) as (Hw2 & Hf2 & Hns2 & HG).
-    destruct (Sanitize.recase cls k Sanitize.Snake) as [ident rn] eqn:Hrc.
-    destruct (mem_ustr k req) eqn:Hreq.
-    - injection Hcp as <- <-. split; [exact Hw2|]. split; [exact Hf2|]. split; [exact Hns2|].
-      split; [apply (recase_wire _ _ _ _ _ Hrc)|].
-      intros T He Hp. cbn [fst snd p_ty]. split; [|left; exact Hreq].
-      rewrite (covers_frag_Gs T s' false t Hf). apply (HG T He Hp 4%nat false).
-    - destruct (has_intrinsic_default s2 t) eqn:Hd.
-      + injection Hcp as <- <-. split; [exact Hw2|]. split; [exact Hf2|]. split; [exact Hns2|].
-        split; [apply (recase_wire _ _ _ _ _ Hrc)|].
-        intros T He Hp. cbn [fst snd p_ty]. split.
-        * rewrite (covers_frag_Gs T s' false t Hf). apply (HG T He Hp 4%nat false).
-        * right. unfold has_intrinsic_default in Hd.
-          destruct (lookup_id t (st_ents s2)) as [e|] eqn:Hl; [|discriminate].
-          pose proof (He t e Hl) as Hg.
-          apply (missing_optional T _ (e_det e)); [reflexivity| |].
-          -- cbn [p_ty]. unfold get_det. rewrite Hg. reflexivity.
-          -- destruct (e_det e); try discriminate; exact I.
-      + destruct (assign (DOption t) s2) as [o s3'] eqn:Ha2.
-        injection Hcp as <- <-.
-        assert (Hfresh : forall n, det_name (DOption t) = Some n -> ~ In n (nkeys s2)) by (intros n Hn; discriminate).
-        destruct (assign_ok _ _ _ _ Ha2 Hw2 Hfresh) as (Hw3 & Hf3 & Hr3 & _ & Hns3).
-        cbn [realizes] in Hr3. cbn [det_name] in Hns3.
-        split; [exact Hw3|]. split; [eapply frame_trans; eassumption|]. split.
-        * eapply names_sub_weaken; [eapply names_sub_trans; eassumption|].
-          rewrite app_nil_r. apply incl_refl.
-        * split; [apply (recase_wire _ _ _ _ _ Hrc)|].
-          intros T He Hp. cbn [fst snd p_ty].
-          pose proof (get_det_of T o _ _ (He o _ Hr3)) as Hgo.
-          split.
-          -- rewrite (covers_frag_Gs T s' false o Hf). unfold FT.
-             apply (Gs_option T s' 5 false o t Hf Hgo).
-             apply (HG T (ext_frame _ _ T Hw2 Hf3 He) Hp 3%nat true).
-          -- right. apply (missing_optional T _ (DOption t)); [reflexivity|exact Hgo|exact I].
-  Qed.
-
   Definition prop_names (base : ustring) (props : list (ustring * schema)) : list ustring :=
     flat_map (fun kv => names_of cls (snd kv) (prop_type_name cls base (fst kv))) props.
-
-  Lemma conv_props_ok base req : forall props,
-    Forall (fun kv => P (snd kv)) props ->
-    forallb (fun kv => frag cls keys (snd kv)) props = true ->
-    forall s0 ps s1,
-    conv_props cls cvf base req props s0 = Some (ps, s1) -> wf s0 ->
-    NoDup (prop_names base props) ->
-    (forall n, In n (prop_names base props) -> ~ In n (nkeys s0)) ->
-    wf s1 /\ frame s0 s1 /\ names_sub s0 s1 (prop_names base props) /\
-    Forall2 (prop_rel req s1) props ps.
-  Proof.
-    induction props as [|[k s'] props IH]; intros HP Hf s0 ps s1 Hc Hw Hnd Hfr.
-    - cbn [conv_props] in Hc. injection Hc as <- <-.
-      split; [exact Hw|]. split; [apply frame_refl|]. split; [apply names_sub_refl|constructor].
-    - cbn [conv_props] in Hc.
-      destruct (conv_prop cls cvf base req k s' s0) as [[p sa]|] eqn:Hcp; [|discriminate].
-      destruct (conv_props cls cvf base req props sa) as [[l sb]|] eqn:Hcr; [|discriminate].
-      injection Hc as <- <-.
-      inversion HP as [|? ? HP1 HP2]; subst.
-      cbn [forallb snd] in Hf. apply andb_true_iff in Hf. destruct Hf as [Hf1 Hf2].
-      unfold prop_names in Hnd, Hfr. cbn [flat_map fst snd] in Hnd, Hfr.
-      destruct (conv_prop_ok base req k s' HP1 Hf1 s0 p sa Hcp Hw (NoDup_app_l _ _ Hnd))
-        as (Hwa & Hfa & Hnsa & Hra).
-      { intros n Hn. apply Hfr. apply in_or_app. left. exact Hn. }
-      destruct (IH HP2 Hf2 sa l sb Hcr Hwa (NoDup_app_r _ _ Hnd)) as (Hwb & Hfb & Hnsb & Hrb).
-      { intros n Hn Hin. destruct (Hnsa n Hin) as [H|H].
-        - apply (Hfr n); [apply in_or_app; right; exact Hn|exact H].
-        - exact (NoDup_app_disj _ _ n Hnd H Hn). }
-      split; [exact Hwb|]. split; [eapply frame_trans; eassumption|]. split.
-      + unfold prop_names. cbn [flat_map fst snd]. eapply names_sub_trans; eassumption.
-      + constructor; [|exact Hrb]. exact (prop_rel_mono req sa sb _ _ Hwa Hfb Hra).
-  Qed.
-
-  Lemma struct_case_ok T req (props : list (ustring * schema)) ps ty ap nn deny s1 :
-    ext s1 T -> DefsPop T ->
-    Forall2 (prop_rel req s1) props ps -> NoDup (map fst props) ->
-    ty_is nn ty [TObject] = true -> ap_simple ap = Some deny ->
-    struct_case re native T (covers re native T A) ty props req ap None nn (sort_props ps) deny = true.
-  Proof.
-    intros He Hp HR Hnd Hty Hap.
-    assert (Hperm : Permutation (sort_props ps) ps) by apply sort_props_perm.
-    assert (Hwn : wire_names ps = map fst props).
-    { apply wire_names_map. eapply Forall2_weaken; [|exact HR]. intros x y [H _]. exact H. }
-    assert (Hndw : NoDup (wire_names (sort_props ps))).
-    { eapply Permutation_NoDup; [apply Permutation_sym, wire_names_perm, Hperm|]. rewrite Hwn. exact Hnd. }
-    unfold struct_case. rewrite Hty. rewrite (nodup_ustr_NoDup _ Hndw). cbn [andb].
-    assert (H1 : props_ok re native T (covers re native T A) props req None (sort_props ps) = true).
-    { unfold props_ok. apply forallb_forall. intros [k s'] Hin. cbn [is_skip orb fst snd].
-      destruct (Forall2_In_l _ _ _ _ HR Hin) as (p & Hpin & Hw & HT). cbn [fst snd] in *.
-      rewrite (find_wire k (sort_props ps) p Hndw); [|eapply Permutation_in; [apply Permutation_sym; exact Hperm|exact Hpin]|exact Hw].
-      destruct (HT T He Hp) as [Hc Hm]. rewrite Hc. cbn [andb].
-      destruct Hm as [Hm|Hm]; rewrite Hm; [reflexivity|apply orb_true_r]. }
-    rewrite H1. cbn [andb].
-    assert (H2 : forallb (fun p => match wire_name p with None => true | Some w => has_key w props end)
-                         (sort_props ps) = true).
-    { apply forallb_forall. intros p Hpin.
-      assert (Hpin' : In p ps) by (eapply Permutation_in; eassumption).
-      destruct (Forall2_In_r _ _ _ _ HR Hpin') as ([k s'] & Hkin & Hw & _). cbn [fst] in Hw. rewrite Hw.
-      apply has_key_true. apply (In_assoc k props s'). exact Hkin. }
-    rewrite H2. cbn [andb].
-    assert (H3 : flat_props (sort_props ps) = []).
-    { unfold flat_props. apply filter_none. intros p Hpin.
-      assert (Hpin' : In p ps) by (eapply Permutation_in; eassumption).
-      destruct (Forall2_In_r _ _ _ _ HR Hpin') as (kv & _ & Hw & _).
-      unfold wire_name in Hw. destruct (p_rename p); [reflexivity|reflexivity|discriminate]. }
-    unfold flat_map_value. rewrite H3.
-    destruct ap as [[[|]|]|]; cbn in Hap; try discriminate; injection Hap as <-; reflexivity.
-  Qed.
 
   (* ---------------------------------------------------------------- one node *)
   Lemma kind_of_type_inv fmt enum ik items props req ap tt k :
@@ -909,210 +745,6 @@ Section Main.
 
   Lemma mem_pair_ref r i : ref_id D r = Some i -> mem_pair A r i = true.
   Proof. apply mem_pair_index. Qed.
-
-    Definition KPost (ty : option (list itype)) (fmt : option ustring) (enum : option (list json)) (cst : option json) (sv : strv) (ik : items_kind) (items : list schema) (props : list (ustring * schema)) (req : list ustring) (ap : option schema) (ref : option ustring) (nl : bool) (k : kind) (nm' : name) (s0 : st) (te : details) (s1 : st) : Prop :=
-      wf s1 /\ frame s0 s1 /\ own_names cls nm' k = own_of te /\
-      names_sub s0 s1 (sub_names k nm' items props ap) /\
-      forall T, ext s1 T -> DefsPop T -> forall t, realizes (get T) t te ->
-        forall ft nn, (nl = true -> nn = true) -> (go re native T A (covers re native T A) ty fmt enum cst numv_none sv ik items None None props req ap None None None None ref) (S ft) nn t = true.
-
-    (* the scalar kinds: no state change, a leaf test *)
-    Lemma scalar_post (ty : option (list itype)) (fmt : option ustring) (enum : option (list json)) (cst : option json) (sv : strv) (ik : items_kind) (items : list schema) (props : list (ustring * schema)) (req : list ustring) (ap : option schema) (ref : option ustring) (nl : bool) k nm' s0 te :
-      wf s0 -> own_names cls nm' k = [] -> sub_names k nm' items props ap = [] -> det_name te = None ->
-      (forall T t, get_det T t = Some te -> forall ft nn, (nl = true -> nn = true) -> (go re native T A (covers re native T A) ty fmt enum cst numv_none sv ik items None None props req ap None None None None ref) (S ft) nn t = true) ->
-      match te with DReference _ => False | _ => True end ->
-      KPost ty fmt enum cst sv ik items props req ap ref nl k nm' s0 te s0.
-    Proof.
-      intros Hw Ho Hs Hn HG Hnr. split; [exact Hw|]. split; [apply frame_refl|].
-      split; [unfold own_of; rewrite Hn; exact Ho|]. split; [apply names_sub_refl|].
-      intros T He Hp t Hr ft nn Hnn. apply HG; [|exact Hnn].
-      destruct te; try contradiction; cbn [realizes] in Hr; exact (get_det_of _ _ _ _ Hr).
-    Qed.
-
-    Lemma kind_ok (ty : option (list itype)) (fmt : option ustring) (enum : option (list json)) (cst : option json) (sv : strv) (ik : items_kind) (items : list schema) (props : list (ustring * schema)) (req : list ustring) (ap : option schema) (ref : option ustring) (nl : bool) k nm' s0 te s1
-      (Hcls :
-        (exists l tt, ty = Some l /\ ref = None /\ split_type l = Some (nl, tt)
-                      /\ kind_of_type fmt enum ik items props req ap tt = Some k)
-        \/ (ty = None /\ nl = false /\ ((exists r, ref = Some r /\ k = KRef r) \/ (ref = None /\ k = KAny))))
-      (Hfk : frag_kind k items props req ap = true)
-      (IHitems : Forall P items)
-      (IHprops : Forall (fun kv => P (snd kv)) props)
-      (IHap : OForall P ap) :
-      conv_kind cls (ref_id D) cvf k nm' items props req ap s0 = Some (te, s1) -> wf s0 ->
-      NoDup (own_names cls nm' k ++ sub_names k nm' items props ap) ->
-      (forall n, In n (own_names cls nm' k ++ sub_names k nm' items props ap) -> ~ In n (nkeys s0)) ->
-      KPost ty fmt enum cst sv ik items props req ap ref nl k nm' s0 te s1.
-    Proof.
-      intros Hc Hw Hnd Hfr.
-      destruct Hcls as [(l & tt & Hty & Href & Hsp & Hkt)|(Hty & Hnl & Hrk)].
-      - (* typed node *)
-        pose proof (kind_of_type_inv _ _ _ _ _ _ _ _ _ Hkt) as Hinv.
-        assert (Htyis : forall nn want, (nl = true -> nn = true) -> tt <> TNull ->
-                  existsb (itype_eqb tt) want = true -> ty_is nn ty want = true).
-        { intros nn want Hnn Hnull Hw'. rewrite Hty. eapply ty_is_split; eassumption. }
-        destruct k as [| | | |r|raws|deny| | | |r|]; try contradiction; cbn [conv_kind] in Hc.
-        + (* KBool *)
-          injection Hc as <- <-. subst tt. apply scalar_post; [exact Hw|reflexivity|reflexivity|reflexivity| |exact I].
-          intros T t Hd ft nn Hnn. eapply go_leaf; [exact Hd|exact Href|reflexivity..|].
-          cbn [leaf_ok]. apply Htyis; [exact Hnn|discriminate|reflexivity].
-        + (* KStr *)
-          injection Hc as <- <-. subst tt. apply scalar_post; [exact Hw|reflexivity|reflexivity|reflexivity| |exact I].
-          intros T t Hd ft nn Hnn. eapply go_leaf; [exact Hd|exact Href|reflexivity..|].
-          cbn [leaf_ok]. apply Htyis; [exact Hnn|discriminate|reflexivity].
-        + (* KNull *)
-          injection Hc as <- <-. subst tt. apply scalar_post; [exact Hw|reflexivity|reflexivity|reflexivity| |exact I].
-          intros T t Hd ft nn Hnn.
-          destruct (split_type_cases _ _ _ Hsp) as [[_ ->]|(_ & Hx & _)]; [|congruence].
-          destruct nn.
-          * eapply go_vacuous; [exact Hd|exact Href|]. rewrite Hty. reflexivity.
-          * eapply go_leaf; [exact Hd|exact Href|reflexivity..|]. rewrite Hty. reflexivity.
-        + (* KNum *)
-          injection Hc as <- <-. subst tt. apply scalar_post; [exact Hw|reflexivity|reflexivity|reflexivity| |exact I].
-          intros T t Hd ft nn Hnn. eapply go_leaf; [exact Hd|exact Href|reflexivity..|].
-          cbn [leaf_ok]. apply Htyis; [exact Hnn|discriminate|reflexivity].
-        + (* KInt *)
-          injection Hc as <- <-. destruct Hinv as [-> Hfmt].
-          apply scalar_post; [exact Hw|reflexivity|reflexivity|reflexivity| |exact I].
-          intros T t Hd ft nn Hnn. eapply go_leaf; [exact Hd|exact Href|reflexivity..|].
-          cbn [leaf_ok]. rewrite (Htyis nn [TInteger] Hnn); [|discriminate|reflexivity]. cbn [andb].
-          assert (Hik : int_kind_ok fmt r = true).
-          { destruct Hfmt as [[-> ->]|(f & -> & Hf)]; [apply int_i64_ok|].
-            pose proof (proj1 (forallb_forall _ _) int_table_ok (f, r) (assoc_In _ _ _ Hf)) as H. exact H. }
-          unfold int_kind_ok in Hik. exact Hik.
-        + (* KEnum *)
-          destruct Hinv as [-> (es & Henum & Hjs)].
-          destruct (type_name cls nm') as [n|] eqn:Hn; [|discriminate].
-          unfold mk_enum in Hc. cbn [frag_kind] in Hfk.
-          destruct (Sanitize.variant_idents cls raws) as [ids| |] eqn:Hv; try discriminate.
-          injection Hc as <- <-.
-          split; [exact Hw|]. split; [apply frame_refl|].
-          split; [cbn [own_names]; rewrite Hn; reflexivity|]. split; [apply names_sub_refl|].
-          intros T He Hp t Hr ft nn Hnn. cbn [realizes] in Hr. apply get_det_of in Hr.
-          eapply go_leaf; [exact Hr|exact Href|reflexivity..|].
-          cbn [leaf_ok]. rewrite (Htyis nn [TString] Hnn); [|discriminate|reflexivity]. cbn [andb].
-          rewrite Henum. rewrite (jstrs_map _ _ Hjs). apply forallb_forall. intros e Hein.
-          apply in_map_iff in Hein. destruct Hein as (x & <- & Hx). cbn [str_simple].
-          set (vs := map (fun p => mkVariant (fst p) (snd p) VSimple) (combine raws ids)).
-          destruct (find_variant_simple vs x 0) as (i & v & Hfv & Hvs).
-          * intros v Hvin. apply in_map_iff in Hvin. destruct Hvin as (pp & <- & _). reflexivity.
-          * subst vs. rewrite map_map. rewrite (map_ext _ fst) by (intros a; reflexivity).
-            refine (eq_ind_r (fun l => In x l) Hx _). apply map_fst_combine.
-            symmetry. apply (variant_idents_length _ _ _ Hv).
-          * rewrite Hfv, Hvs. reflexivity.
-        + (* KStruct *)
-          destruct Hinv as [-> Hap].
-          destruct (type_name cls nm') as [base|] eqn:Hn; [|discriminate].
-          destruct (conv_props cls cvf base req props s0) as [[ps sa]|] eqn:Hcp; [|discriminate].
-          destruct (Sanitize.unique (map p_name (sort_props ps))); [|discriminate].
-          injection Hc as <- <-.
-          cbn [frag_kind] in Hfk. apply andb_true_iff in Hfk. destruct Hfk as [Hfk Hfp].
-          apply andb_true_iff in Hfk. destruct Hfk as [Hfk _]. apply andb_true_iff in Hfk. destruct Hfk as [Hks _].
-          cbn [own_names sub_names] in Hnd, Hfr. rewrite Hn in Hnd, Hfr.
-          destruct (conv_props_ok base req props IHprops Hfp s0 ps sa Hcp Hw) as (Hwa & Hfa & Hnsa & HR).
-          { apply (NoDup_app_r _ _ Hnd). }
-          { intros n Hin. apply Hfr. apply in_or_app. right. exact Hin. }
-          split; [exact Hwa|]. split; [exact Hfa|].
-          split; [cbn [own_names]; rewrite Hn; reflexivity|].
-          split; [cbn [sub_names]; rewrite Hn; exact Hnsa|].
-          intros T He Hp t Hr ft nn Hnn. cbn [realizes] in Hr. apply get_det_of in Hr.
-          eapply go_leaf; [exact Hr|exact Href|reflexivity..|].
-          cbn [leaf_ok]. eapply struct_case_ok; try eassumption.
-          * apply keys_sorted_NoDup. exact Hks.
-          * apply Htyis; [exact Hnn|discriminate|reflexivity].
-        + (* KMap *)
-          destruct Hinv as [-> Hprops].
-          destruct (assign DString s0) as [kid sk] eqn:Hak.
-          assert (Hfk0 : forall n, det_name DString = Some n -> ~ In n (nkeys s0)) by (intros n Hn0; discriminate).
-          destruct (assign_ok _ _ _ _ Hak Hw Hfk0) as (Hwk & Hfrk & Hrk & _ & Hnsk).
-          cbn [realizes] in Hrk. cbn [det_name] in Hnsk.
-          cbn [own_names sub_names app] in Hnd, Hfr.
-          assert (Hleaf : forall T s2 vid, wf s2 -> frame sk s2 -> ext s2 T ->
-                     addl_ok T (covers re native T A) ap vid = true ->
-                     forall t, realizes (get T) t (DMap kid vid) -> forall ft nn, (nl = true -> nn = true) ->
-                     (go re native T A (covers re native T A) ty fmt enum cst numv_none sv ik items None None props req ap None None None None ref) (S ft) nn t = true).
-          { intros T s2 vid Hw2 Hf2 He Hao t Hr ft nn Hnn. cbn [realizes] in Hr. apply get_det_of in Hr.
-            eapply go_leaf; [exact Hr|exact Href|reflexivity..|].
-            cbn [leaf_ok]. rewrite (Htyis nn [TObject] Hnn); [|discriminate|reflexivity]. cbn [andb].
-            rewrite (get_det_of T kid _ _ (He kid _ (frame_keeps _ _ _ _ Hwk Hf2 Hrk))). rewrite Hao, Hprops. reflexivity. }
-          destruct ap as [vs|].
-          * destruct (cvf vs (value_name nm') sk) as [[tev s2]|] eqn:Hcv; [|discriminate].
-            destruct (assign tev s2) as [vid s3] eqn:Hav. injection Hc as <- <-.
-            destruct vs as [[|]|vty vfmt venum vcst vnv vsv vik vitems vai vmni vmxi vuq vprops vreq vap vmnp vmxp vallo vanyo voneo vno vref vdflt vtitle].
-            -- (* additionalProperties: true *)
-               cbn [conv] in Hcv. injection Hcv as <- <-.
-               assert (Hfv0 : forall n, det_name DJsonValue = Some n -> ~ In n (nkeys (set_json sk))) by (intros n Hn0; discriminate).
-               destruct (assign_ok _ _ _ _ Hav (wf_set_json _ Hwk) Hfv0) as (Hw3 & Hf3 & Hr3 & _ & Hns3).
-               cbn [realizes] in Hr3. cbn [det_name] in Hns3.
-               assert (Hfs : frame sk s3) by (destruct Hf3 as [Hx Hy]; split; [exact Hx|exact Hy]).
-               split; [exact Hw3|]. split; [eapply frame_trans; eassumption|].
-               split; [reflexivity|]. split.
-               ++ cbn [sub_names names_of]. intros n Hin. destruct (Hns3 n Hin) as [H|[]].
-                  destruct (Hnsk n H) as [H'|[]]. left. exact H'.
-               ++ intros T He Hp t Hr ft nn Hnn. eapply (Hleaf T s3 vid Hw3 Hfs He); [|exact Hr|exact Hnn].
-                  cbn [addl_ok covers]. unfold FT. apply accepts_any_json. exact (get_det_of _ _ _ _ (He _ _ Hr3)).
-            -- cbn [frag_kind frag] in Hfk. discriminate.
-            -- cbn [frag_kind] in Hfk. cbn [OForall] in IHap.
-               destruct (P_assign _ IHap Hfk _ _ _ _ _ _ Hcv Hav Hwk) as (Hw3 & Hf3 & Hns3 & HG3).
-               { exact Hnd. }
-               { intros n Hin Hin'. destruct (Hnsk n Hin') as [H|[]]. exact (Hfr n Hin H). }
-               split; [exact Hw3|]. split; [eapply frame_trans; eassumption|].
-               split; [reflexivity|]. split.
-               ++ cbn [sub_names]. intros n Hin. destruct (Hns3 n Hin) as [H|H]; [|right; exact H].
-                  destruct (Hnsk n H) as [H'|[]]. left. exact H'.
-               ++ intros T He Hp t Hr ft nn Hnn. eapply (Hleaf T s3 vid Hw3 Hf3 He); [|exact Hr|exact Hnn].
-                  cbn [addl_ok]. rewrite (covers_frag_Gs T _ false vid Hfk). apply (HG3 T He Hp 4%nat false).
-          * destruct (assign DJsonValue (set_json sk)) as [vid s3] eqn:Hav. injection Hc as <- <-.
-            assert (Hfv0 : forall n, det_name DJsonValue = Some n -> ~ In n (nkeys (set_json sk))) by (intros n Hn0; discriminate).
-            destruct (assign_ok _ _ _ _ Hav (wf_set_json _ Hwk) Hfv0) as (Hw3 & Hf3 & Hr3 & _ & Hns3).
-            cbn [realizes] in Hr3. cbn [det_name] in Hns3.
-            assert (Hfs : frame sk s3) by (destruct Hf3 as [Hx Hy]; split; [exact Hx|exact Hy]).
-            split; [exact Hw3|]. split; [eapply frame_trans; eassumption|].
-            split; [reflexivity|]. split.
-            -- cbn [sub_names]. intros n Hin. destruct (Hns3 n Hin) as [H|[]].
-               destruct (Hnsk n H) as [H'|[]]. left. exact H'.
-            -- intros T He Hp t Hr ft nn Hnn. eapply (Hleaf T s3 vid Hw3 Hfs He); [|exact Hr|exact Hnn].
-               cbn [addl_ok]. unfold FT. apply accepts_any_json. exact (get_det_of _ _ _ _ (He _ _ Hr3)).
-        + (* KVec *)
-          destruct Hinv as (-> & Hik & it & ->).
-          destruct (cvf it (item_name cls nm') s0) as [[tei s2]|] eqn:Hcv; [|discriminate].
-          destruct (assign tei s2) as [iid s3] eqn:Hav. injection Hc as <- <-.
-          cbn [frag_kind forallb] in Hfk. rewrite andb_true_r in Hfk.
-          pose proof (Forall_inv IHitems) as HPit.
-          cbn [own_names sub_names app flat_map] in Hnd, Hfr. rewrite app_nil_r in Hnd, Hfr.
-          destruct (P_assign _ HPit Hfk _ _ _ _ _ _ Hcv Hav Hw Hnd Hfr) as (Hw3 & Hf3 & Hns3 & HG3).
-          split; [exact Hw3|]. split; [exact Hf3|]. split; [reflexivity|]. split.
-          * cbn [sub_names flat_map]. rewrite app_nil_r. exact Hns3.
-          * intros T He Hp t Hr ft nn Hnn. cbn [realizes] in Hr. apply get_det_of in Hr.
-            eapply go_leaf; [exact Hr|exact Href|reflexivity..|].
-            cbn [leaf_ok]. rewrite (Htyis nn [TArray] Hnn); [|discriminate|reflexivity]. cbn [andb].
-            unfold elem_ok. rewrite Hik. rewrite (covers_frag_Gs T _ false iid Hfk). apply (HG3 T He Hp 4%nat false).
-        + (* KVecAny *)
-          destruct Hinv as (-> & Hik).
-          destruct (assign DJsonValue (set_json s0)) as [iid s3] eqn:Hav. injection Hc as <- <-.
-          assert (Hfv0 : forall n, det_name DJsonValue = Some n -> ~ In n (nkeys (set_json s0))) by (intros n Hn0; discriminate).
-          destruct (assign_ok _ _ _ _ Hav (wf_set_json _ Hw) Hfv0) as (Hw3 & Hf3 & Hr3 & _ & Hns3).
-          cbn [realizes] in Hr3. cbn [det_name] in Hns3.
-          assert (Hfs : frame s0 s3) by (destruct Hf3 as [Hx Hy]; split; [exact Hx|exact Hy]).
-          split; [exact Hw3|]. split; [exact Hfs|]. split; [reflexivity|]. split.
-          * cbn [sub_names]. intros n Hin. destruct (Hns3 n Hin) as [H|[]]. left. exact H.
-          * intros T He Hp t Hr ft nn Hnn. cbn [realizes] in Hr. apply get_det_of in Hr.
-            eapply go_leaf; [exact Hr|exact Href|reflexivity..|].
-            cbn [leaf_ok]. rewrite (Htyis nn [TArray] Hnn); [|discriminate|reflexivity]. cbn [andb].
-            unfold elem_ok. rewrite Hik. unfold FT. apply accepts_any_json. exact (get_det_of _ _ _ _ (He _ _ Hr3)).
-      - (* untyped node: reference or anything *)
-        destruct Hrk as [(r & Href & ->)|(Href & ->)]; cbn [conv_kind] in Hc.
-        + destruct (ref_id D r) as [i|] eqn:Hri; [|discriminate]. injection Hc as <- <-.
-          split; [exact Hw|]. split; [apply frame_refl|]. split; [reflexivity|]. split; [apply names_sub_refl|].
-          intros T He Hp t Hr ft nn Hnn. cbn [realizes] in Hr. subst t.
-          destruct (Hp r i Hri) as (d & Hd).
-          eapply go_ref; [exact Hd|exact Href|]. apply mem_pair_ref. exact Hri.
-        + injection Hc as <- <-.
-          split; [apply wf_set_json; exact Hw|]. split; [split; [cbn; lia|reflexivity]|].
-          split; [reflexivity|]. split; [intros n Hin; left; exact Hin|].
-          intros T He Hp t Hr ft nn Hnn. cbn [realizes] in Hr. apply get_det_of in Hr.
-          apply go_json. exact Hr.
-    Qed.
-
   Lemma classify_cases ty fmt enum cst nv sv ik items ai mni mxi uq props req ap mnp mxp allo anyo oneo no ref dflt title nl k :
     classify ty fmt enum cst nv sv ik items ai mni mxi uq props req ap mnp mxp allo anyo oneo no ref dflt title = Some (nl, k) ->
     (exists l tt, ty = Some l /\ ref = None /\ split_type l = Some (nl, tt)
@@ -1129,47 +761,6 @@ Section Main.
       destruct ref as [r|]; intro H; injection H as <- <-; right; (split; [reflexivity|split; [reflexivity|]]).
       + left. exists r. split; reflexivity.
       + right. split; reflexivity.
-  Qed.
-
-  Lemma conv_P : forall s, P s.
-  Proof.
-    apply schema_ind'.
-    - intros b Hf. discriminate Hf.
-    - intros ty fmt enum cst nv sv ik items ai mni mxi uq props req ap mnp mxp allo anyo oneo no ref dflt title
-             IHitems _ IHprops IHap _ _ _ _.
-      intros Hf nm s0 te s1 Hc Hw Hnd Hfr.
-      destruct (frag_obj_inv _ _ _ _ _ _ _ _ _ _ _ _ _ _ _ _ _ _ _ _ _ _ _ _ Hf)
-        as (nl & k & Hcl & -> & -> & -> & -> & -> & -> & ->).
-      pose proof (classify_cases _ _ _ _ _ _ _ _ _ _ _ _ _ _ _ _ _ _ _ _ _ _ _ _ _ _ Hcl) as Hcases.
-      cbn [frag] in Hf. rewrite Hcl in Hf. change (frag_kind k items props req ap = true) in Hf.
-      cbn [conv] in Hc. rewrite Hcl in Hc.
-      cbn [names_of] in Hnd, Hfr. rewrite Hcl in Hnd, Hfr.
-      destruct nl; cbn [conv_node] in Hc.
-      + (* nullable: Option around the non-null part *)
-        destruct (conv_kind cls (ref_id D) cvf k (inner_name nm) items props req ap s0) as [[te' s1']|] eqn:Hck;
-          [|discriminate].
-        destruct (assign te' s1') as [i s2] eqn:Ha. injection Hc as <- <-.
-        destruct (kind_ok ty fmt enum cst sv ik items props req ap ref true k (inner_name nm) s0 te' s1'
-                          Hcases Hf IHitems IHprops IHap Hck Hw Hnd Hfr) as (Hw1 & Hf1 & Hown & Hns & HG).
-        assert (Hfresh : forall n, det_name te' = Some n -> ~ In n (nkeys s1')).
-        { intros n Hn Hin. unfold own_of in Hown. rewrite Hn in Hown.
-          destruct (Hns n Hin) as [H|H].
-          - apply (Hfr n); [apply in_or_app; left; rewrite Hown; left; reflexivity|exact H].
-          - rewrite Hown in Hnd. cbn in Hnd. inversion Hnd; subst. contradiction. }
-        destruct (assign_ok te' s1' i s2 Ha Hw1 Hfresh) as (Hw2 & Hf2 & Hr2 & _ & Hns2).
-        split; [exact Hw2|]. split; [eapply frame_trans; eassumption|]. split.
-        * eexists. split; [cbn [names_of own_of det_name app]; rewrite Hcl; reflexivity|].
-          eapply names_sub_weaken; [eapply names_sub_trans; eassumption|].
-          rewrite Hown. unfold own_of. intros x Hx. apply in_app_or in Hx. apply in_or_app.
-          destruct Hx; [right|left]; assumption.
-        * intros T He Hp t Hr ft nn. cbn [realizes] in Hr. apply get_det_of in Hr. cbn [Gs].
-          eapply go_option; [exact Hr|].
-          apply (HG T (ext_frame _ _ T Hw1 Hf2 He) Hp i (realizes_ext _ _ _ _ Hr2 He) ft true (fun _ => eq_refl)).
-      + destruct (kind_ok ty fmt enum cst sv ik items props req ap ref false k nm s0 te s1
-                          Hcases Hf IHitems IHprops IHap Hc Hw Hnd Hfr) as (Hw1 & Hf1 & Hown & Hns & HG).
-        split; [exact Hw1|]. split; [exact Hf1|]. split.
-        * eexists. split; [cbn [names_of]; rewrite Hcl, <- Hown; reflexivity|exact Hns].
-        * intros T He Hp t Hr ft nn. cbn [Gs]. apply (HG T He Hp t Hr (S ft) nn). discriminate.
   Qed.
 
   (* ---------------------------------------------------------------- definitions *)
@@ -1214,160 +805,6 @@ Section Main.
       destruct p as [ps sa]. destruct (Sanitize.unique _); [|discriminate]. intro H. injection H as <- _. discriminate.
   Qed.
 
-  Definition nD : N := N.of_nat (length D).
-
-  (* what holds after the definitions [done] (a prefix of the document) are converted *)
-  Record Inv (done : list (ustring * schema)) (s : st) : Prop := {
-    inv_wf : wf s;
-    inv_next : nD < st_next s;
-    inv_empty : forall i, N.of_nat (length done) < i -> i <= nD -> lk s i = None;
-    inv_names : forall n, In n (nkeys s) -> In n (flat_map (def_all_names cls) done);
-    inv_done : forall j d sch, nth_error done j = Some (d, sch) ->
-      (exists e, lk s (N.of_nat j + 1) = Some e) /\
-      forall T, ext s T -> DefsPop T -> covers re native T A sch false (TId (N.of_nat j + 1)) = true }.
-
-  Lemma conv_def_ok done d sch todo s0 s3 :
-    D = done ++ (d, sch) :: todo ->
-    conv_def cls (ref_id D) d sch (N.of_nat (length done) + 1) s0 = Some s3 ->
-    frag cls keys sch = true -> NoDup (all_names cls D) ->
-    Inv done s0 -> Inv (done ++ [(d, sch)]) s3.
-  Proof.
-    intros HD Hcd Hf Hnd [Hw Hnx Hem Hnm Hdn].
-    set (t := N.of_nat (length done) + 1) in *.
-    assert (Htn : t <= nD).
-    { unfold t, nD. rewrite HD, app_length. cbn [length]. lia. }
-    unfold all_names in Hnd. rewrite HD, flat_map_app in Hnd. cbn [flat_map] in Hnd.
-    destruct (def_all_names_spec d sch) as [Hincl Hndn].
-    assert (Hnd1 : NoDup (def_all_names cls (d, sch))) by exact (NoDup_app_l _ _ (NoDup_app_r _ _ Hnd)).
-    assert (Hdisj : forall x, In x (def_all_names cls (d, sch)) -> ~ In x (nkeys s0)).
-    { intros x Hx Hin. apply (NoDup_app_disj _ _ x Hnd (Hnm x Hin)). apply in_or_app. left. exact Hx. }
-    unfold conv_def in Hcd.
-    destruct (cvf sch (NRequired d) s0) as [[te s1]|] eqn:Hc; [|discriminate].
-    destruct (conv_P sch Hf (NRequired d) s0 te s1 Hc Hw (Hndn Hnd1)) as (Hw1 & Hf1 & (L & HL & Hns1) & HG).
-    { intros x Hx. apply Hdisj. apply Hincl. right. exact Hx. }
-    (* the entry stored at t, and the state before it is stored *)
-    assert (Hent : exists ent s2 en,
-      Some s3 = Some (mkSt (st_next s2) (put t (mkEntry ent []) (st_ents s2)) ((en, t) :: st_names s2)
-                           (st_types s2) (st_json s2)) /\
-      wf s2 /\ frame s0 s2 /\ names_sub s0 s2 (names_of cls sch (NRequired d)) /\
-      In en (san d :: names_of cls sch (NRequired d)) /\
-      forall T, ext s2 T -> DefsPop T -> get T t = Some (mkEntry ent []) ->
-                Gs T sch FT false t = true).
-    { assert (Hnamed : forall n, det_name te = Some n ->
-        match det_name te with None => None
-        | Some en => Some (mkSt (st_next s1) (put t (mkEntry te []) (st_ents s1)) ((en, t) :: st_names s1)
-                                (st_types s1) (st_json s1)) end = Some s3 ->
-        exists ent s2 en,
-          Some s3 = Some (mkSt (st_next s2) (put t (mkEntry ent []) (st_ents s2)) ((en, t) :: st_names s2)
-                               (st_types s2) (st_json s2)) /\
-          wf s2 /\ frame s0 s2 /\ names_sub s0 s2 (names_of cls sch (NRequired d)) /\
-          In en (san d :: names_of cls sch (NRequired d)) /\
-          forall T, ext s2 T -> DefsPop T -> get T t = Some (mkEntry ent []) -> Gs T sch FT false t = true).
-      { intros n Hn H. rewrite Hn in H. exists te, s1, n. split; [symmetry; exact H|].
-        split; [exact Hw1|]. split; [exact Hf1|]. split.
-        - eapply names_sub_weaken; [exact Hns1|]. rewrite HL. apply incl_appr, incl_refl.
-        - split.
-          + right. rewrite HL. unfold own_of. rewrite Hn. left. reflexivity.
-          + intros T He Hp Hg. unfold FT. apply (HG T He Hp t).
-            destruct te; try discriminate Hn; exact Hg. }
-      assert (Halias : forall i s2, assign te s1 = (i, s2) -> det_name te = None ->
-        match te with DReference _ => False | _ => True end ->
-        Some (mkSt (st_next s2) (put t (mkEntry (DNewtype (san d) None i CNone) []) (st_ents s2))
-                   ((san d, t) :: st_names s2) (st_types s2) (st_json s2)) = Some s3 ->
-        exists ent s2 en,
-          Some s3 = Some (mkSt (st_next s2) (put t (mkEntry ent []) (st_ents s2)) ((en, t) :: st_names s2)
-                               (st_types s2) (st_json s2)) /\
-          wf s2 /\ frame s0 s2 /\ names_sub s0 s2 (names_of cls sch (NRequired d)) /\
-          In en (san d :: names_of cls sch (NRequired d)) /\
-          forall T, ext s2 T -> DefsPop T -> get T t = Some (mkEntry ent []) -> Gs T sch FT false t = true).
-      { intros i s2 Ha Hn Hnr H.
-        assert (Hfresh : forall n, det_name te = Some n -> ~ In n (nkeys s1)) by (intros n Hn'; congruence).
-        destruct (assign_ok te s1 i s2 Ha Hw1 Hfresh) as (Hw2 & Hf2 & Hr2 & _ & Hns2).
-        rewrite Hn in Hns2.
-        exists (DNewtype (san d) None i CNone), s2, (san d). split; [symmetry; exact H|].
-        split; [exact Hw2|]. split; [eapply frame_trans; eassumption|]. split.
-        - intros x Hx. destruct (Hns2 x Hx) as [Hx'|[]]. destruct (Hns1 x Hx') as [Hx''|Hx''].
-          + left. exact Hx''.
-          + right. rewrite HL. apply in_or_app. right. exact Hx''.
-        - split; [left; reflexivity|].
-          intros T He Hp Hg. unfold FT. apply (Gs_newtype T sch 5 false t _ _ i Hf (get_det_of _ _ _ _ Hg)).
-          apply (HG T (ext_frame _ _ T Hw1 Hf2 He) Hp i (realizes_ext _ _ _ _ Hr2 He) 3%nat false). }
-      destruct te as [? ? ? ? ? ?|? ? ? ?|? ? ? ?|? ? ?|?|?|?|? ?|?|? ?|?| | |?|?| | |r0];
-        try (destruct (assign _ s1) as [i s2] eqn:Ha; cbn [det_name] in Hcd;
-             exact (Halias i s2 eq_refl eq_refl I Hcd));
-        try (exact (Hnamed _ eq_refl Hcd)).
-      (* DReference r: newtype around the referenced definition *)
-      cbn [det_name] in Hcd.
-      exists (DNewtype (san d) None r0 CNone), s1, (san d). split; [symmetry; exact Hcd|].
-      split; [exact Hw1|]. split; [exact Hf1|]. split.
-      - eapply names_sub_weaken; [exact Hns1|]. rewrite HL. apply incl_appr, incl_refl.
-      - split; [left; reflexivity|].
-        intros T He Hp Hg. unfold FT. apply (Gs_newtype T sch 5 false t _ _ r0 Hf (get_det_of _ _ _ _ Hg)).
-        apply (HG T He Hp r0 eq_refl 3%nat false). }
-    destruct Hent as (ent & s2 & en & Hs3 & Hw2 & Hf2 & Hns2 & Hen & HG2).
-    injection Hs3 as ->.
-    assert (Hnx2 : nD < st_next s2) by (destruct Hf2 as [Hx _]; lia).
-    assert (Ht2 : lk s2 t = None).
-    { destruct Hf2 as [_ Hy]. rewrite Hy by lia. apply Hem; [unfold t; lia|exact Htn]. }
-    assert (Hlk3 : forall i, lk (mkSt (st_next s2) (put t (mkEntry ent []) (st_ents s2)) ((en, t) :: st_names s2)
-                                     (st_types s2) (st_json s2)) i
-                             = if i =? t then Some (mkEntry ent []) else lk s2 i).
-    { intro i. unfold lk. cbn [st_ents]. apply lookup_put. }
-    assert (Hext3 : forall T, ext (mkSt (st_next s2) (put t (mkEntry ent []) (st_ents s2)) ((en, t) :: st_names s2)
-                                        (st_types s2) (st_json s2)) T -> ext s2 T).
-    { intros T He i e Hi. apply He. rewrite Hlk3. destruct (i =? t) eqn:E; [|exact Hi].
-      apply N.eqb_eq in E. subst i. rewrite Ht2 in Hi. discriminate. }
-    split.
-    - (* wf *)
-      split.
-      + intros i e. rewrite Hlk3. cbn [st_next]. destruct (i =? t) eqn:E.
-        * apply N.eqb_eq in E. subst i. intros _. lia.
-        * apply (wf_lt s2 Hw2).
-      + intros d' j Hin. cbn [st_types] in Hin. rewrite Hlk3.
-        pose proof (wf_types s2 Hw2 d' j Hin) as H.
-        destruct (j =? t) eqn:E; [|exact H]. apply N.eqb_eq in E. subst j. rewrite Ht2 in H. discriminate.
-    - cbn [st_next]. exact Hnx2.
-    - intros i Hi1 Hi2. rewrite Hlk3. rewrite app_length in Hi1. cbn [length] in Hi1.
-      destruct (i =? t) eqn:E; [apply N.eqb_eq in E; unfold t in E; lia|].
-      destruct Hf2 as [_ Hy]. rewrite Hy by lia. apply Hem; [lia|exact Hi2].
-    - intros x Hx. unfold nkeys in Hx. cbn [st_names map fst] in Hx. rewrite flat_map_app. cbn [flat_map].
-      rewrite app_nil_r. apply in_or_app.
-      destruct Hx as [<-|Hx]; [right; apply Hincl; exact Hen|].
-      destruct (Hns2 x Hx) as [H|H]; [left; apply Hnm; exact H|right; apply Hincl; right; exact H].
-    - intros j d' sch' Hnth.
-      destruct (Nat.lt_ge_cases j (length done)) as [Hj|Hj].
-      + rewrite nth_error_app1 in Hnth by exact Hj.
-        destruct (Hdn j d' sch' Hnth) as [(e & He0) HC]. split.
-        * exists e. rewrite Hlk3.
-          destruct (N.of_nat j + 1 =? t) eqn:E; [apply N.eqb_eq in E; unfold t in E; lia|].
-          exact (frame_keeps s0 s2 _ _ Hw Hf2 He0).
-        * intros T He Hp. apply HC; [|exact Hp]. eapply ext_frame; [exact Hw|exact Hf2|]. apply Hext3. exact He.
-      + rewrite nth_error_app2 in Hnth by exact Hj.
-        destruct (j - length done)%nat as [|j'] eqn:Hjj; [|destruct j'; discriminate].
-        cbn [nth_error] in Hnth. injection Hnth as <- <-.
-        assert (Hjt : N.of_nat j + 1 = t) by (unfold t; lia). rewrite Hjt. split.
-        * eexists. rewrite Hlk3, N.eqb_refl. reflexivity.
-        * intros T He Hp. rewrite (covers_frag_Gs T sch false t Hf). apply (HG2 T (Hext3 T He) Hp).
-          apply He. rewrite Hlk3, N.eqb_refl. reflexivity.
-  Qed.
-
-  Lemma conv_defs_ok : forall todo done s0 sf,
-    D = done ++ todo ->
-    conv_defs cls (ref_id D) todo (N.of_nat (length done) + 1) s0 = Some sf ->
-    forallb (fun kv => frag cls keys (snd kv)) todo = true -> NoDup (all_names cls D) ->
-    Inv done s0 -> Inv D sf.
-  Proof.
-    induction todo as [|[d sch] todo IH]; intros done s0 sf HD Hc Hf Hnd HI.
-    - cbn [conv_defs] in Hc. injection Hc as <-. rewrite app_nil_r in HD. rewrite HD. exact HI.
-    - cbn [conv_defs] in Hc.
-      destruct (conv_def cls (ref_id D) d sch (N.of_nat (length done) + 1) s0) as [s1|] eqn:Hcd; [|discriminate].
-      cbn [forallb snd] in Hf. apply andb_true_iff in Hf. destruct Hf as [Hf1 Hf2].
-      pose proof (conv_def_ok done d sch todo s0 s1 HD Hcd Hf1 Hnd HI) as HI1.
-      apply (IH (done ++ [(d, sch)]) s1 sf); [rewrite <- app_assoc; exact HD| |exact Hf2|exact Hnd|exact HI1].
-      rewrite app_length. cbn [length].
-      replace (N.of_nat (length done + 1) + 1) with (N.of_nat (length done) + 1 + 1) by lia. exact Hc.
-  Qed.
-
   Lemma ref_index_nth : forall (l : defs) r i0 i,
     ref_index l r i0 = Some i -> exists j kv, nth_error l j = Some kv /\ i = i0 + N.of_nat j.
   Proof.
@@ -1397,38 +834,6 @@ Section Main.
       + apply ustr_eqb_eq in E. subst k'. exfalso. apply Hni.
         apply (in_map fst) in Hn || (apply nth_error_In in Hn; apply (in_map fst) in Hn). exact Hn.
       + apply (IH j); assumption.
-  Qed.
-
-  Theorem convert_covers T :
-    in_frag cls D = true -> convert_doc cls D = Some T ->
-    covers_all re native D T (pairs_of D) = true.
-  Proof.
-    intros Hin Hc. unfold in_frag in Hin.
-    apply andb_true_iff in Hin. destruct Hin as [Hin _].
-    apply andb_true_iff in Hin. destruct Hin as [Hin Hun].
-    apply andb_true_iff in Hin. destruct Hin as [Hin Hfr].
-    apply andb_true_iff in Hin. destruct Hin as [Hks _].
-    apply unique_true_iff in Hun.
-    unfold convert_doc in Hc. destruct (negb (Sanitize.unique (def_names cls D))); [discriminate|].
-    destruct (conv_defs cls (ref_id D) D 1 _) as [sf|] eqn:Hcd; [|discriminate]. injection Hc as <-.
-    assert (HI0 : Inv [] (mkSt (1 + N.of_nat (length D)) [] [] [] false)).
-    { split.
-      - split; [intros i e H; discriminate H|intros d i []].
-      - cbn [st_next]. unfold nD. lia.
-      - intros i _ _. reflexivity.
-      - intros n [].
-      - intros j d sch H. destruct j; discriminate H. }
-    pose proof (conv_defs_ok D [] _ sf eq_refl Hcd Hfr Hun HI0) as [Hw Hnx Hem Hnm Hdn].
-    assert (He : ext sf (space_of sf)) by (intros i e H; exact H).
-    assert (Hp : DefsPop (space_of sf)).
-    { intros r i Hr. unfold ref_id in Hr. destruct (ref_index_nth D r 1 i Hr) as (j & [d sch] & Hn & ->).
-      destruct (Hdn j d sch Hn) as [(e & Hl) _]. exists (e_det e). unfold get_det.
-      replace (1 + N.of_nat j) with (N.of_nat j + 1) by lia. rewrite (He _ _ Hl). reflexivity. }
-    unfold covers_all. apply forallb_forall. intros p Hpin. unfold pairs_of in Hpin.
-    destruct (pairs_from_nth D 1 p Hpin) as (j & sch & Hn & Hs).
-    unfold resolve_ref. rewrite (assoc_nth D j (fst p) sch (keys_sorted_NoDup _ Hks) Hn).
-    destruct (Hdn j (fst p) sch Hn) as [_ HC]. rewrite Hs.
-    replace (1 + N.of_nat j) with (N.of_nat j + 1) by lia. apply HC; assumption.
   Qed.
 
   (* ---------------------------------------------------------------- totality *)
@@ -1612,19 +1017,6 @@ Section Main.
 End Main.
 
 (* ------------------------------------------------------------------ corollaries *)
-Theorem fragment_sound cls re fmt_ok native D T :
-  (forall f n s, In (f, n) format_native_table -> fmt_ok f s = true -> native n s = true) ->
-  in_frag cls D = true -> convert_doc cls D = Some T ->
-  forall r t, In (r, t) (pairs_of D) ->
-  forall v, in_dom v = true ->
-  Valid re fmt_ok D (SRef r) v ->
-  exists f, de re native T f t v <> None.
-Proof.
-  intros Hfmt Hin Hc. apply (covers_sound re fmt_ok native D T (pairs_of D) Hfmt).
-  apply convert_covers with (cls := cls); assumption.
-Qed.
-
-(* every definition of the document has its pair *)
 Lemma pairs_from_complete : forall (D : defs) i0 r s, In (r, s) D -> exists t, In (r, t) (pairs_from D i0).
 Proof.
   induction D as [|[k x] D IH]; intros i0 r s H; [destruct H|]. cbn [pairs_from].
